@@ -81,7 +81,7 @@ def configure_bad(sim, conf, is_client):
 
 FAULTS = ("drop", "dup", "delay", "timer-late")
 PROFILES = {
-    "agreement": {"faults": FAULTS, "configure": configure_agreement, "allow_vn": True, "allow_disjoint_suites": True,
+    "agreement": {"faults": FAULTS, "configure": configure_agreement, "allow_vn": True, "allow_no_common_version": True, "allow_disjoint_suites": True,
                   "retry_p": 0.25, "max_ops": 4, "t_adv_max": 3.0, "fair_budget": 80.0,
                   "idle_timeouts": (10.0, 20.0)},
     "bad_cert": {"faults": FAULTS, "configure": configure_bad, "max_ops": 3, "t_adv_max": 2.0, "fair_budget": 40.0,
